@@ -347,9 +347,13 @@ Definition spec_run (ss : sstate) (pre : obs) (now : Z) (fe0 : fetch) (fl : faul
            EMPTY — not merely without the revoked key: the disk still says Valid, and a non-empty set is what
            lets the next refresh republish from that disk before its fetch *)
         let s_failclosed := negb (is_nil renames) || is_nil revs || is_nil (o_live post) in
+        (* S9: the record of a revocation is kept for ever ("tombstone file ... kept forever", "StateRevoked marker until
+           it lands"): every key material the disk recorded as revoked before this run (tombstone entry or
+           StateRevoked / StateRemoved marker) is still recorded by one of the two files after it *)
+        let s_durable := forallb (fun m => memN m (recorded post)) (recorded pre) in
         (* the revocation counts as persisted as soon as one of the two files was replaced in this run *)
         let rev_recorded := if is_nil renames then [] else rev_mats in
-        (unreadable_ok && s_immediate && s_perm && s_revonly && s_new && s_missing && s_record && s_keep && s_failclosed,
+        (unreadable_ok && s_immediate && s_perm && s_revonly && s_new && s_missing && s_record && s_keep && s_failclosed && s_durable,
          mk_ss cfg (ss_record ss) streak' prom (rev_recorded ++ ss_rev ss) (ss_rev ss) rev_mats absent'
                (ss_streak ss) (ss_absent ss) renames)
     end
